@@ -24,6 +24,7 @@ _ty_alignments = {
     "i64": 3,
     "f32": 2,
     "f64": 3,
+    "v128": 4,
 }
 
 
@@ -37,6 +38,26 @@ _opcode2_alignments = {
     "store8": 0,
     "store16": 1,
     "store32": 2,
+    "load8x8_s": 3,
+    "load8x8_u": 3,
+    "load16x4_s": 3,
+    "load16x4_u": 3,
+    "load32x2_s": 3,
+    "load32x2_u": 3,
+    "load8_splat": 0,
+    "load16_splat": 1,
+    "load32_splat": 2,
+    "load64_splat": 3,
+    "load32_zero": 2,
+    "load64_zero": 3,
+    "load8_lane": 0,
+    "load16_lane": 1,
+    "load32_lane": 2,
+    "load64_lane": 3,
+    "store8_lane": 0,
+    "store16_lane": 1,
+    "store32_lane": 2,
+    "store64_lane": 3,
 }
 
 
